@@ -72,7 +72,8 @@ def run(chk):
     chk.trust("hand model theories/Model_Quadrature.v of FineContour.calcDistance / reverse / getDistance / interpFunction (numpy cumsum / argmin / searchsorted, closest_approach, scipy interp1d with extrapolation) and of FineContour.equaliseSpacing (refine stubbed to the identity: the model's contract; numpy's pairwise summation in numpy.mean modelled), "
               "run bit for bit (binary64) against the real methods on every run")
     qc = quad.correspondence(chk, 320 if chk.tier == "quick" else 3000, ["distance", "getdist", "interp", "equalise"], "distance")
-    grids = corpus.get(tier=chk.tier)
+    # (quick tier too: a connected double null written with start_at_upper_outer -- the periodic y-group must start at the first core region in y order)
+    grids = corpus.get(tier=chk.tier, extra_cfgs=[] if chk.tier == "thorough" else [dict(corpus.CONFIGS["cdn_uo"], must_build=True)])
     n = len(qc[0]) if qc else 0
     worst = {}
     for g in grids:
